@@ -7,8 +7,10 @@ import (
 	"fmt"
 	"go/ast"
 	"go/format"
+	"go/importer"
 	"go/parser"
 	"go/token"
+	"go/types"
 	"os"
 	"os/exec"
 	"path"
@@ -407,7 +409,7 @@ func c19GoPkg(spec, fileName, protoPkg string) (pkgPath, pkgName string) {
 // c19Placement models where the stubs of the generated file belong: the Go package protoc-gen-go puts the
 // file's own service descriptions in (an M mapping for the file beats its go_package), except that
 // import_path stands in for files that have no M mapping. Also the package of the dependency file.
-func c19Placement(c c19Case) (ownPath, ownName, depPath, module string) {
+func c19Placement(c c19Case) (ownPath, ownName, depPath, depName, module string) {
 	imap := map[string]string{}
 	importPath := ""
 	for _, p := range c.Params {
@@ -434,8 +436,132 @@ func c19Placement(c c19Case) (ownPath, ownName, depPath, module string) {
 	} else if importPath != "" && c.AlsoDep != "" {
 		depSpec = importPath // import_path speaks for every file named for generation that has no M mapping
 	}
-	depPath, _ = c19GoPkg(depSpec, c19DepFile, "dep.pkg")
+	depPath, depName = c19GoPkg(depSpec, c19DepFile, "dep.pkg")
 	return
+}
+
+// ---------------------------------------------------------------------------------------
+// type-checking the emitted file against companions written the way protoc-gen-go and
+// protoc-gen-go-grpc write them (those generators cannot be run offline; their naming conventions
+// are what the plugin relies on and what the checked-in stubs are compiled against)
+
+type c19Importer struct {
+	mu    sync.Mutex
+	src   types.ImporterFrom
+	real  map[string]*types.Package
+	fakes map[string]*types.Package
+}
+
+var c19Imp = &c19Importer{}
+
+func (im *c19Importer) Import(path string) (*types.Package, error) { return im.ImportFrom(path, "", 0) }
+
+func (im *c19Importer) ImportFrom(path, dir string, mode types.ImportMode) (*types.Package, error) {
+	if p, ok := im.fakes[path]; ok {
+		return p, nil
+	}
+	if p, ok := im.real[path]; ok {
+		return p, nil
+	}
+	if im.src == nil {
+		im.src = importer.ForCompiler(token.NewFileSet(), "source", nil).(types.ImporterFrom)
+		im.real = map[string]*types.Package{}
+	}
+	wd, _ := os.Getwd()
+	p, err := im.src.ImportFrom(path, wd, 0) // resolves through the go command: once per path and process
+	if err == nil {
+		im.real[path] = p
+	}
+	return p, err
+}
+
+// c19FakeDep: the dependency's Go package as protoc-gen-go would emit it (just the message type).
+func c19FakeDep(path, name string) *types.Package {
+	pkg := types.NewPackage(path, name)
+	tn := types.NewTypeName(token.NoPos, pkg, "Shared", nil)
+	types.NewNamed(tn, types.NewStruct(nil, nil), nil)
+	pkg.Scope().Insert(tn)
+	pkg.MarkComplete()
+	return pkg
+}
+
+func c19TypeCheck(c c19Case, src, ownPath, ownName, depPath, depName string, legacyDesc bool) string {
+	depLocal := depPath == ownPath
+	goType := func(kind, local string) string {
+		switch kind {
+		case "dep":
+			if depLocal {
+				return "*Shared"
+			}
+			return "*deppkg.Shared"
+		case "empty":
+			return "*emptypb.Empty"
+		}
+		return "*" + local
+	}
+	var b strings.Builder
+	fmt.Fprintf(&b, "package %s\n\nimport (\n\t\"context\"\n\t\"google.golang.org/grpc\"\n\t\"google.golang.org/protobuf/types/known/emptypb\"\n", ownName)
+	if !depLocal {
+		fmt.Fprintf(&b, "\tdeppkg %q\n", depPath)
+	}
+	b.WriteString(")\n\nvar _ context.Context\nvar _ *emptypb.Empty\n\ntype Req struct{}\ntype Resp struct{}\n")
+	if depLocal {
+		b.WriteString("type Shared struct{}\n")
+	} else {
+		b.WriteString("var _ *deppkg.Shared\n")
+	}
+	for _, sv := range c.Services {
+		svc := camelCase(sv.Name)
+		descVar := svc + "_ServiceDesc"
+		if legacyDesc {
+			descVar = "_" + svc + "_serviceDesc"
+		}
+		fmt.Fprintf(&b, "\nvar %s grpc.ServiceDesc\ntype %sServer interface{}\ntype %sClient interface {\n", descVar, svc, svc)
+		for _, m := range sv.Methods {
+			mn := camelCase(m.Name)
+			switch {
+			case !m.CS && !m.SS:
+				fmt.Fprintf(&b, "\t%s(ctx context.Context, in %s, opts ...grpc.CallOption) (%s, error)\n", mn, goType(m.In, "Req"), goType(m.Out, "Resp"))
+			case m.CS:
+				fmt.Fprintf(&b, "\t%s(ctx context.Context, opts ...grpc.CallOption) (%s_%sClient, error)\n", mn, svc, mn)
+			default:
+				fmt.Fprintf(&b, "\t%s(ctx context.Context, in %s, opts ...grpc.CallOption) (%s_%sClient, error)\n", mn, goType(m.In, "Req"), svc, mn)
+			}
+		}
+		b.WriteString("}\n")
+		for _, m := range sv.Methods {
+			if m.CS || m.SS {
+				mn := camelCase(m.Name)
+				fmt.Fprintf(&b, "type %s_%sClient interface{ grpc.ClientStream }\ntype %s%sClient struct{ grpc.ClientStream }\n", svc, mn, unexport(svc), mn)
+			}
+		}
+	}
+	fset := token.NewFileSet()
+	gen, err := parser.ParseFile(fset, "generated.pb.grpchan.go", src, 0)
+	if err != nil {
+		return "emitted file does not parse: " + err.Error()
+	}
+	comp, err := parser.ParseFile(fset, "companion.pb.go", b.String(), 0)
+	if err != nil {
+		return "harness: companion does not parse: " + err.Error() + "\n" + b.String()
+	}
+	c19Imp.mu.Lock()
+	defer c19Imp.mu.Unlock()
+	c19Imp.fakes = map[string]*types.Package{}
+	if !depLocal {
+		c19Imp.fakes[depPath] = c19FakeDep(depPath, depName)
+	}
+	var first error
+	conf := types.Config{Importer: c19Imp, Error: func(e error) {
+		if first == nil {
+			first = e
+		}
+	}}
+	conf.Check(ownPath, fset, []*ast.File{comp, gen}, nil)
+	if first != nil {
+		return first.Error()
+	}
+	return ""
 }
 
 func propC19(c c19Case) *Outcome {
@@ -538,7 +664,7 @@ func propC19(c c19Case) *Outcome {
 	}
 	// placement: the stubs refer to <Svc>_ServiceDesc, <Svc>Server and <Svc>Client unqualified, so they are
 	// only "for its own service description" when they land in the package those live in
-	ownPath, ownName, depPath, module := c19Placement(c)
+	ownPath, ownName, depPath, depName, module := c19Placement(c)
 	af, _ := parser.ParseFile(token.NewFileSet(), "gen.go", src, parser.ImportsOnly)
 	if af.Name.Name != ownName {
 		return o.failf("package clause %q; the file's Go package (M mapping, else import_path, else go_package %q) is named %q", af.Name.Name, c.GoPackage, ownName)
@@ -569,6 +695,18 @@ func propC19(c c19Case) *Outcome {
 			}
 		}
 	}
+	// the emitted file type-checks next to the declarations protoc-gen-go / protoc-gen-go-grpc produce for the
+	// same file (a Go package cannot import itself, so a file placed in another package than its own
+	// declarations, or qualifying its own types, fails here too)
+	if why := c19TypeCheck(c, src, ownPath, ownName, depPath, depName, legacyDesc); why != "" {
+		if strings.HasPrefix(why, "harness:") {
+			o.Inconclusive = why
+			return o
+		}
+		o.Observed = src
+		return o.failf("emitted code does not type-check against the companion declarations of protoc-gen-go/-go-grpc: %s", why)
+	}
+	o.class("type-checked")
 	byFn := map[string][]stubCall{}
 	for _, sc := range calls {
 		byFn[sc.recv+"."+sc.fn] = append(byFn[sc.recv+"."+sc.fn], sc)
@@ -721,7 +859,7 @@ func genC19(t *rapid.T) c19Case {
 	c.AlsoDep = rapid.SampledFrom([]string{"", "", "first", "last"}).Draw(t, "alsodep")
 	np := rapid.IntRange(0, 4).Draw(t, "nparams")
 	pool := []string{"legacy_stubs", "legacy_stubs", "legacy_stubs=true", "legacy_stubs=on", "legacy_stubs=YES", "legacy_stubs=1", "legacy_stubs=false", "legacy_stubs=0", "legacy_desc_names", "legacy_desc_names=true", "legacy_desc_names=no",
-		"debug", "debug=off", "paths=import", "paths=source_relative", "module=example.com/mod", "module=example.com/foo", "import_path=example.com/override", "import_path=example.com/override/v2;ovr", "Mdep/dep.proto=example.com/other/dep", "Msvc.proto=example.com/m/svc;svcpb", "Ma/b/svc.proto=example.com/mod/ab", "Mx_y/my_api.proto=example.com/m/api;apipb",
+		"debug", "debug=off", "paths=import", "paths=source_relative", "module=example.com/mod", "module=example.com/foo", "import_path=example.com/override", "import_path=example.com/override/v2;ovr", "Mdep/dep.proto=example.com/other/dep", "Mdep/dep.proto=example.com/x/grpc", "Mdep/dep.proto=example.com/x/context", "Mdep/dep.proto=example.com/x/emptypb", "Mdep/dep.proto=example.com/x/grpchan", "Mdep/dep.proto=example.com/y/v1;bar", "Msvc.proto=example.com/m/svc;svcpb", "Ma/b/svc.proto=example.com/mod/ab", "Mx_y/my_api.proto=example.com/m/api;apipb",
 		// documented invalid forms
 		"legacy_stubs=maybe", "paths=relative", "paths", "module", "import_path", "Mfoo.proto", "bogus", "bogus=1", "debug=2", "legacy_desc_names=", "M"}
 	for i := 0; i < np; i++ {
@@ -744,7 +882,7 @@ func init() { registerReplay("C19", propC19) }
 
 const c19Rule = "rapid-generated FileDescriptorProtos (package empty/nested, four go_package forms, 0..3 services, 0..8 methods of the four kinds in any interleaving, snake_case/CamelCase/digit/underscore names, local/imported/well-known request and response types with dependency files) x parameter lists (legacy_stubs, legacy_desc_names, debug, paths, module, import_path, M mappings, every accepted boolean spelling, and the documented invalid forms) fed as CodeGeneratorRequest to the plugin binary built from the working tree; " +
 	"oracle: error iff the parameters are invalid by the documented grammar; one *.pb.grpchan.go iff the file has services; output parses (go/parser) and is a go/format fixed point; AST model: RegisterHandler<Svc> calls reg.RegisterService(&<desc var per legacy_desc_names>, srv); with legacy_stubs every method has exactly one stub calling Invoke / NewStream with path /<full service>/<method>, &<desc>.Streams[rank among the service's streaming methods], SendMsg+CloseSend iff server-streaming only; without legacy_stubs no client types; placement model: package clause and output path are those of the Go package holding the file's own service descriptions (M mapping for the file > import_path > go_package; module prefix trimmed; paths=source_relative), imported message packages are imported under their M mapping, the file never imports itself; " +
-	"also generated since the seeded rounds: M mapping of the generated file with and without import_path (drawn deliberately), the messages-only dependency file named for generation before/after the file under test; " +
+	"also generated since the seeded rounds: M mapping of the generated file with and without import_path (drawn deliberately), the messages-only dependency file named for generation before/after the file under test, dependency packages whose Go name collides with another import (grpc, context, emptypb, grpchan) or with the file's own package; the emitted file is type-checked (go/types) next to companion declarations written the way protoc-gen-go/-go-grpc write them; " +
 	"plus byte-exact regeneration of grpchantesting/test.pb.grpchan.go from the compiled-in descriptors; non-trivial = streaming methods interleaved with unary ones, >=2 services, invalid parameters, or regeneration; distinct by case hash"
 
 func TestC19(t *testing.T) {
